@@ -1,4 +1,4 @@
-INIT MCInitQuick
+INIT MCInitThorough
 NEXT Next
 CONSTANTS Configs = {}
   CountBasedCheck = FALSE
